@@ -63,12 +63,12 @@ cpdef object project_idx_to_date(
     Returns:
         Datetime for the index, or None if start is None
     """
-    cdef int seconds
+    cdef long long seconds  # slot index x resolution exceeds 2^31 beyond a 68-year horizon
 
     if start is None:
         return None
 
-    seconds = idx * granularity
+    seconds = <long long>idx * granularity
     return start + timedelta(seconds=seconds)
 
 
@@ -123,7 +123,7 @@ cpdef bint is_working_time_fast(
     Returns:
         True if slot is within working hours
     """
-    cdef int seconds
+    cdef long long seconds  # slot index x resolution exceeds 2^31 beyond a 68-year horizon
     cdef object dt
     cdef int hour
     cdef int weekday
@@ -132,7 +132,7 @@ cpdef bint is_working_time_fast(
         return False
 
     # Get datetime for slot
-    seconds = slot_idx * granularity
+    seconds = <long long>slot_idx * granularity
     dt = start + timedelta(seconds=seconds)
 
     # Get weekday (0=Monday, 6=Sunday)
